@@ -118,4 +118,69 @@ theorem scan_iff (s : St) (h : WF s) (ip : Addr) :
       refine ⟨a, n, hmem, hpos, ?_⟩
       rw [maskOf_eq n hpos (h1 _ hmem)]; exact hc
 
+/-! ### canonical masks -/
+
+/-- the canonical 4-byte mask with `n` leading ones -/
+def prefixByte (k : Nat) : UInt8 := UInt8.ofNat (256 - 2 ^ (8 - min k 8))
+def cidrMask (n : Nat) : Bytes :=
+  [prefixByte n, prefixByte (n - 8), prefixByte (n - 16), prefixByte (n - 24)]
+
+/-- `len` mask bytes with `n` leading ones -/
+def maskBytes : Nat → Nat → Bytes
+  | 0, _ => []
+  | l + 1, n => prefixByte n :: maskBytes l (n - 8)
+
+theorem cidrMask_eq (n : Nat) : cidrMask n = maskBytes 4 n := by
+  simp [cidrMask, maskBytes, Nat.sub_sub]
+
+theorem prefixByte_ge8 (k : Nat) (h : 8 ≤ k) : prefixByte k = 0xff := by
+  unfold prefixByte; rw [Nat.min_eq_right h]; decide
+
+theorem maskBytes_zero (l : Nat) : maskBytes l 0 = List.replicate l 0 := by
+  induction l with
+  | zero => rfl
+  | succ l ih => simp [maskBytes, ih, List.replicate_succ]; decide
+
+theorem prefixByte_leadingOnes (b : UInt8) (h : isPrefixByte b = true) :
+    prefixByte (leadingOnes8 b) = b ∧ leadingOnes8 b ≤ 8 := by
+  unfold isPrefixByte at h
+  simp only [Bool.or_eq_true, beq_iff_eq] at h
+  rcases h with (((((((h | h) | h) | h) | h) | h) | h) | h) | h <;> subst h <;> decide
+
+theorem all_zero_eq (l : Bytes) (h : l.all (· == 0) = true) : l = List.replicate l.length 0 := by
+  induction l with
+  | nil => rfl
+  | cons a l ih =>
+    simp only [List.all_cons, Bool.and_eq_true, beq_iff_eq] at h
+    rw [List.length_cons, List.replicate_succ, ← ih h.2, h.1]
+
+/-- `net.simpleMaskLength` succeeds only on canonical masks 1ⁿ0* -/
+theorem simpleMaskLength_sound (m : Bytes) (n : Nat) (h : simpleMaskLength m = some n) :
+    m = maskBytes m.length n ∧ n ≤ 8 * m.length := by
+  induction m generalizing n with
+  | nil => simp [simpleMaskLength] at h; subst h; simp [maskBytes]
+  | cons b rest ih =>
+    unfold simpleMaskLength at h
+    by_cases hb : (b == 0xff) = true
+    · rw [if_pos hb] at h
+      cases hr : simpleMaskLength rest with
+      | none => simp [hr] at h
+      | some k =>
+        simp [hr] at h; subst h
+        obtain ⟨h1, h2⟩ := ih k hr
+        refine ⟨?_, by simp; omega⟩
+        simp only [List.length_cons, maskBytes, Nat.add_sub_cancel]
+        rw [prefixByte_ge8 _ (by omega), ← h1]
+        simp at hb; rw [hb]
+    · rw [if_neg hb] at h
+      split at h
+      · rename_i hc
+        simp at h; subst h
+        obtain ⟨hp, hl⟩ := prefixByte_leadingOnes b hc.1
+        refine ⟨?_, by simp; omega⟩
+        simp only [List.length_cons, maskBytes]
+        rw [hp, Nat.sub_eq_zero_of_le hl, maskBytes_zero, ← all_zero_eq rest hc.2]
+      · simp at h
+
+
 end Glb.Filter
